@@ -100,6 +100,10 @@ def explore_paths(fresh, *, actions, apply, project, max_depth, max_nodes=200000
             truncated = True
             cut.add(n)
             continue
+        try:
+            actions.depth = depth[n]   # lets a caller offer a reduced alphabet at the last level(s)
+        except AttributeError:
+            pass
         for act in actions(nodes[n - 1]):
             o = fresh()
             for e in path:
